@@ -312,7 +312,7 @@ package phase0
 // process_deposit (C03): unless told to skip it, the deposit's Merkle branch (depth DEPOSIT_CONTRACT_TREE_DEPTH + 1,
 // index = the state's next deposit index) must lead to the state's eth1 deposit root
 //@ func ProcessDeposit(spec, epc, state, dep, ignoreSignatureAndProof) err
-//@   property C03 C01
+//@   property C03 C01 C16
 //@   panics off
 //@   opt weakcalls
 //@   opt inline=closures
@@ -326,6 +326,12 @@ package phase0
 //@   ensures c01_new_validator: err == nil && n_add_val == old(n_add_val) + 1 ==> add_val_pub == old(dep.Data.Pubkey) && add_val_creds == old(dep.Data.WithdrawalCredentials) && add_val_bal == old(dep.Data.Amount)
 //@   ensures c03_new_validator_signed: err == nil && spec != nil && n_add_val == old(n_add_val) + 1 ==> pub_valid(old(dep.Data.Pubkey)) && sig_valid(old(dep.Data.Signature)) && (ignoreSignatureAndProof || bls_ok(old(dep.Data.Pubkey), seq(signing_root(deposit_msg_root(old(dep.Data.Pubkey), old(dep.Data.WithdrawalCredentials), old(dep.Data.Amount)), compute_domain(common.DOMAIN_DEPOSIT, spec.GENESIS_FORK_VERSION, RootT(0, 0, 0, 0, 0, 0, 0, 0, 0, 0, 0, 0, 0, 0, 0, 0, 0, 0, 0, 0, 0, 0, 0, 0, 0, 0, 0, 0, 0, 0, 0, 0)))), old(dep.Data.Signature)))
 //@   ensures c01_skipped: err == nil && spec != nil && n_add_val == old(n_add_val) && n_set_bal == old(n_set_bal) ==> !pub_valid(old(dep.Data.Pubkey)) || !sig_valid(old(dep.Data.Signature)) || (!ignoreSignatureAndProof && !bls_ok(old(dep.Data.Pubkey), seq(signing_root(deposit_msg_root(old(dep.Data.Pubkey), old(dep.Data.WithdrawalCredentials), old(dep.Data.Amount)), compute_domain(common.DOMAIN_DEPOSIT, spec.GENESIS_FORK_VERSION, RootT(0, 0, 0, 0, 0, 0, 0, 0, 0, 0, 0, 0, 0, 0, 0, 0, 0, 0, 0, 0, 0, 0, 0, 0, 0, 0, 0, 0, 0, 0, 0, 0)))), old(dep.Data.Signature)))
+// C16: the epoch context keeps the handle the shared pubkey cache hands back (it may be a fork-out of the old one): after a new
+// validator the context's handle knows the pair (index = the registry length), in its own segment or below its trusted prefix.
+// Assumed in the antecedent: the global cache invariant at entry, for every handle - those already allocated and those the
+// state / BLS calls before the cache update may allocate (the engine draws their fields from the entry heap; no frame says
+// these calls allocate no PubkeyCache).
+//@   ensures c16_handle_kept@C16: err == nil && n_add_val == old(n_add_val) + 1 && epc != nil && !st_vals_err(state) && !reg_len_err(st_vals(state)) && reg_len(st_vals(state)) < 1099511627776 && old(epc.ValidatorPubkeyCache != nil && alloc(epc.ValidatorPubkeyCache) && (forall r PcPtr :: {pctrig(r)} pctrig(r) && r != nil ==> pc_local(r.pub2idx, r.idx2pub, r.trustedParentCount) && pc_chain(r.parent, r, r.trustedParentCount, r.parent.trustedParentCount, len(r.parent.idx2pub)) && held(r.rwLock) == 0)) ==> epc.ValidatorPubkeyCache != nil && ((has(epc.ValidatorPubkeyCache.pub2idx, old(dep.Data.Pubkey)) && epc.ValidatorPubkeyCache.pub2idx[old(dep.Data.Pubkey)] == reg_len(st_vals(state))) || reg_len(st_vals(state)) < epc.ValidatorPubkeyCache.trustedParentCount)
 //@   ensures proof: err == nil && !ignoreSignatureAndProof ==> !st_depidx_err(state) && !st_eth1_err(state) && mfold(deposit_data_root(old(dep.Data)), old(seq(dep.Proof)), st_depidx(state), common.DEPOSIT_CONTRACT_TREE_DEPTH + 1) == st_eth1(state).DepositRoot
 
 // ---------------------------------------------------------------- registry updates: the exit queue handed to the ejections (C02)
